@@ -25,7 +25,7 @@ $ok || exit 1
 mkdir -p $dst; cp $src/patch.diff $src/demo.sh $dst/; cp $src/notes.md $dst/notes.md 2>/dev/null
 cat > $dst/meta.json <<M
 {
- "property": "$id",
+ "property": "${id%%r[0-9]*}",
  "origin": "fresh sub-agent given only the property text and a scratch worktree of /repo",
  "needs_to_manifest": "see notes.md",
  "confirmed": {"demo_with_patch_exit": $d1, "demo_without_patch_exit": $d0, "suite_passed": $passed, "suite_failed": "$failed", "how": "tools/confirm_seed.sh in the scratch worktree (git apply; demo.sh; cargo test --workspace --no-fail-fast --offline; git apply -R; demo.sh)"},
